@@ -81,7 +81,7 @@ Proof.
   - eexists; reflexivity.
 Qed.
 
-Ltac eqR := first [ reflexivity | ring | (f_equal; eqR) ].
+Ltac eqR := first [ reflexivity | ring | (progress f_equal; eqR) ].
 Ltac row_elt := cbv [iso_vector trace3 mk_arr nth]; numR; eqR.
 Ltac row_leaf :=
   cbv beta iota delta [enc_row];
